@@ -56,6 +56,52 @@ Theorem C13_distinct : forall p own peer own' peer',
 Proof. exact distinct_nonces_distinct_keys_or_collision. Qed.
 Print Assumptions C13_distinct.
 
+(* The MAC hash.rs really computes - OpenSSL is handed [0] when the key is empty (the fix for the
+   empty-secret panic) - is the RFC 2104 HMAC of the key it was given, for every key and message;
+   hence make_secure_channel_keys as coded is the function of C13_make_keys. *)
+Theorem C13_hmac_vec : forall a key msg, mac_impl a key msg = mac_of a key msg.
+Proof. exact mac_impl_is_hmac. Qed.
+Print Assumptions C13_hmac_vec.
+
+Theorem C13_make_keys_impl : forall p secret seed, make_keys_impl p secret seed = spec_keys p seed secret.
+Proof. intros p secret seed. rewrite make_keys_impl_eq. apply make_keys_spec. Qed.
+Print Assumptions C13_make_keys_impl.
+
+Local Open Scope Z_scope.
+(* Histories.  A client-role and a server-role SecureChannel object go through ANY sequence of
+   OpenSecureChannel exchanges (issue and renewals: policy, own nonce, peer nonce by either
+   setter, derive_keys when the peer nonce was accepted), starting from any state in which the
+   two key fields are both present or both absent.  What is observed after every exchange - the
+   stored key sets and the keys the signing/encrypting accessors hand out - is [spec_rounds]:
+   a side that accepted the peer nonce holds exactly the Part 6 keys of THAT exchange, secures
+   with its own and verifies with the peer's; a side that rejected it keeps what it had. *)
+Theorem C13_history : forall rs client server, chan_wf client -> chan_wf server ->
+  run_rounds client server rs = spec_rounds (view client) (view server) rs.
+Proof. exact run_rounds_spec. Qed.
+Print Assumptions C13_history.
+
+(* ... in particular nothing of earlier exchanges survives in the keys that are used: after any
+   history whose last exchange both sides accepted, the keys one side secures with are the keys
+   the other verifies with, and they are the Part 6 keys of the last policy and nonces. *)
+Theorem C13_keys_after_history : forall rs r client server, chan_wf client -> chan_wf server ->
+  let p := r_policy r in
+  let cn := to_bytes (r_client_nonce r) in let sn := to_bytes (r_server_nonce r) in
+  accepts p (r_mode r) (r_server_nonce r) = true -> accepts p (r_mode r) (r_client_nonce r) = true ->
+  chan_used (fst (end_state client server (rs ++ [r]))) = Some (spec_keys p cn sn, spec_keys p sn cn) /\
+  chan_used (snd (end_state client server (rs ++ [r]))) = Some (spec_keys p sn cn, spec_keys p cn sn).
+Proof. exact keys_after_history. Qed.
+Print Assumptions C13_keys_after_history.
+
+(* the hypotheses are satisfiable: a renewal with another policy after a rejected exchange *)
+Example C13_history_example :
+  let rs := [mk_round Basic256 [1] [2] 1; mk_round Basic256 [1; 2] [3; 4] 0] in
+  let r := mk_round Basic128Rsa15 (repeat 7 16) (repeat 9 16) 1 in
+  chan_wf (chan_new Basic256) /\
+  accepts (r_policy r) (r_mode r) (r_server_nonce r) = true /\ accepts (r_policy r) (r_mode r) (r_client_nonce r) = true /\
+  accepts Basic256 1 [2] = false.
+Proof. cbn. repeat split; discriminate. Qed.
+Local Close Scope Z_scope.
+
 Theorem C13_oracle : forall c : case, known c = 0%Z -> oracle c (run c) = true.
 Proof. intros c _. apply oracle_holds. Qed.
 Print Assumptions C13_oracle.
